@@ -1,22 +1,405 @@
-//! C14 (stub, being written)
+//! C14 — the PHY driver and the radio chip never disagree about the radio's state.
+//!
+//! Generator (systematic fault/cancellation enumeration over canonical scenarios + seeded random scripts),
+//! execution (see exec14.rs for the monitors) and evidence plumbing.
+
+use crate::exec14::*;
+use crate::rig::*;
+use crate::script::*;
+use crate::with_radio_kind;
+use crate::world::*;
+use lora_phy::mod_traits::RadioKind;
 use simcore::*;
+use std::collections::BTreeSet;
+use std::sync::OnceLock;
+
 pub struct C14;
-pub fn self_test() -> Result<(), String> { Ok(()) }
-#[derive(Clone, serde::Serialize, serde::Deserialize)]
-pub struct C14Case {}
-impl simcore::shrink::Shrinkable for C14Case {
-    fn parts(&self) -> usize { 0 }
-    fn without(&self, _: usize, _: usize) -> Self { self.clone() }
-    fn simplifications(&self) -> Vec<Self> { vec![] }
+
+const DUTY: RxM = RxM::Duty { rx: 640, sleep: 1280 }; // 10 ms RX, 20 ms sleep
+const SINGLE: RxM = RxM::Single(20);
+
+fn prep_tx() -> Op {
+    Op::PrepTx { ch: 0, dr: 0, power: 14, len: 12 }
 }
+fn prep_rx(mode: RxM) -> Op {
+    Op::PrepRx { mode, ch: 0, dr: 0, implicit: false, len: 255 }
+}
+fn done(len: u8) -> Irq {
+    Irq::Done { len, cad: false }
+}
+
+/// Canonical scenarios the systematic part walks faults and cancellations over.
+fn scenarios() -> Vec<Vec<Step>> {
+    let s = Step::of;
+    let w = Step::with;
+    let gap = |op: Op, gap_us: u32| Step { op, gap_us, fault: None, irqs: vec![] };
+    vec![
+        vec![s(prep_tx()), s(Op::Tx)],
+        vec![s(Op::Sleep { warm: false }), s(prep_tx()), s(Op::Tx)],
+        vec![s(Op::Sleep { warm: true }), s(prep_tx()), s(Op::Tx)],
+        vec![s(prep_rx(SINGLE)), w(Op::Rx { buf: 64 }, vec![done(12)])],
+        vec![s(prep_rx(SINGLE)), s(Op::StartRx), w(Op::CompleteRx { buf: 64 }, vec![Irq::Timeout]), s(prep_tx()), s(Op::Tx)],
+        vec![s(prep_rx(RxM::Continuous)), s(Op::StartRx), w(Op::CompleteRx { buf: 64 }, vec![done(20)]), s(Op::SwitchChannel { ch: 1 }), w(Op::CompleteRx { buf: 64 }, vec![Irq::Preamble, done(5)])],
+        vec![s(prep_rx(DUTY)), s(Op::StartRx), w(Op::CompleteRx { buf: 64 }, vec![Irq::Preamble, done(7)]), s(Op::Sleep { warm: true })],
+        vec![s(Op::Sleep { warm: false }), s(prep_rx(SINGLE)), w(Op::Rx { buf: 255 }, vec![done(30)])],
+        vec![s(Op::PrepCad { ch: 0, dr: 1 }), w(Op::Cad, vec![Irq::Done { len: 0, cad: true }])],
+        vec![s(Op::Sleep { warm: false }), s(Op::PrepCad { ch: 2, dr: 0 }), s(Op::Cad), s(prep_tx()), s(Op::Tx)],
+        vec![s(Op::Listen { ch: 0 }), s(prep_tx()), s(Op::Tx)],
+        vec![s(Op::SetSyncWord { word: 0x1424 }), s(prep_tx()), s(Op::Tx), s(Op::Sleep { warm: false }), s(Op::SetSyncWord { word: 0x3444 })],
+        vec![s(Op::Init), s(prep_tx()), s(Op::Tx), s(Op::Sleep { warm: false }), s(Op::Init), s(Op::Listen { ch: 3 })],
+        vec![
+            s(Op::LwTx { ch: 0, dr: 0, power: 14, len: 23 }),
+            s(Op::LwSetupRx { ch: 0, dr: 0, continuous: false, ms: 10 }),
+            w(Op::LwRxSingle { buf: 256 }, vec![Irq::Timeout]),
+            s(Op::LwSetupRx { ch: 2, dr: 2, continuous: false, ms: 10 }),
+            w(Op::LwRxSingle { buf: 256 }, vec![done(17)]),
+            s(Op::LwLowPower),
+            s(Op::LwTx { ch: 1, dr: 1, power: 2, len: 13 }),
+        ],
+        vec![
+            s(Op::LwSetupRx { ch: 2, dr: 0, continuous: true, ms: 0 }),
+            w(Op::LwRxContinuous { buf: 256 }, vec![done(14)]),
+            w(Op::LwRxContinuous { buf: 256 }, vec![Irq::Cancel { chip_completes: false }]),
+            s(Op::LwTx { ch: 1, dr: 0, power: 14, len: 5 }),
+            s(Op::LwLowPower),
+        ],
+        // calls in the wrong mode
+        vec![s(Op::Tx), s(Op::StartRx), s(Op::CompleteRx { buf: 16 }), s(Op::Cad), s(Op::SwitchChannel { ch: 1 }), s(Op::Rx { buf: 16 }), s(Op::Sleep { warm: false }), s(Op::Tx), s(Op::StartRx), s(Op::Cad)],
+        vec![s(prep_tx()), s(Op::StartRx), s(Op::Cad), s(Op::Tx), s(Op::Tx), s(prep_rx(SINGLE)), s(Op::Tx), s(Op::Cad), s(Op::PrepCad { ch: 0, dr: 0 }), s(Op::Tx), s(Op::StartRx), s(Op::Listen { ch: 0 }), s(Op::StartRx), s(Op::Tx)],
+        // RxDutyCycle with the next command inside / outside a sleep phase
+        vec![s(prep_rx(DUTY)), s(Op::StartRx), gap(Op::SwitchChannel { ch: 1 }, 15_000)],
+        vec![s(prep_rx(DUTY)), s(Op::StartRx), gap(Op::StartRx, 15_000)],
+        vec![s(prep_rx(DUTY)), s(Op::StartRx), gap(Op::CompleteRx { buf: 64 }, 15_000)],
+        vec![s(prep_rx(DUTY)), s(Op::StartRx), gap(prep_tx(), 15_000), s(Op::Tx)],
+        vec![s(prep_rx(DUTY)), s(Op::StartRx), gap(Op::Sleep { warm: false }, 45_000), s(prep_rx(DUTY)), s(Op::Rx { buf: 64 })],
+        vec![s(Op::PrepCad { ch: 0, dr: 0 }), w(Op::Cad, vec![Irq::Spurious, Irq::Done { len: 0, cad: false }])],
+        vec![s(prep_tx()), w(Op::Tx, vec![Irq::Timeout]), s(prep_tx()), s(Op::Tx)],
+        vec![s(prep_rx(SINGLE)), w(Op::Rx { buf: 4 }, vec![done(12)]), s(Op::StartRx)],
+        vec![s(prep_rx(RxM::Continuous)), w(Op::Rx { buf: 64 }, vec![Irq::CrcError { len: 9 }]), w(Op::CompleteRx { buf: 64 }, vec![Irq::HeaderError, done(3)]), s(Op::Sleep { warm: true }), s(prep_rx(RxM::Continuous)), s(Op::Rx { buf: 64 })],
+    ]
+}
+
+const POSITIONS: usize = 57;
+const IRQ_VARIANTS: usize = 9;
+
+/// Flattened (scenario, step, variant) table of the systematic part; variant 0 = undisturbed.
+fn systematic_table() -> &'static Vec<(usize, usize, usize)> {
+    static T: OnceLock<Vec<(usize, usize, usize)>> = OnceLock::new();
+    T.get_or_init(|| {
+        let mut t = Vec::new();
+        for (si, sc) in scenarios().iter().enumerate() {
+            t.push((si, 0, 0));
+            for (j, st) in sc.iter().enumerate() {
+                for v in 1..=(2 * POSITIONS + 3) {
+                    t.push((si, j, v));
+                }
+                if st.op.waits() {
+                    for v in 0..IRQ_VARIANTS {
+                        t.push((si, j, 2 * POSITIONS + 4 + v));
+                    }
+                }
+            }
+        }
+        t
+    })
+}
+
+fn systematic(run: u64) -> Option<C14Case> {
+    let t = systematic_table();
+    let chip = ALL_CHIPS[(run % 5) as usize];
+    let k = (run / 5) as usize;
+    let &(si, j, v) = t.get(k)?;
+    let mut steps = scenarios().swap_remove(si);
+    if v >= 1 {
+        let st = &mut steps[j];
+        if v <= POSITIONS {
+            st.fault = Some(Fault { kind: FaultKind::Spi, at: (v - 1) as u16 });
+        } else if v <= 2 * POSITIONS {
+            st.fault = Some(Fault { kind: FaultKind::Busy, at: (v - 1 - POSITIONS) as u16 });
+        } else if v <= 2 * POSITIONS + 3 {
+            st.fault = Some(Fault { kind: FaultKind::Irq, at: (v - 1 - 2 * POSITIONS) as u16 });
+        } else {
+            let iv = v - (2 * POSITIONS + 4);
+            let orig = std::mem::take(&mut st.irqs);
+            st.irqs = match iv {
+                0 => vec![Irq::Cancel { chip_completes: false }],
+                1 => vec![Irq::Cancel { chip_completes: true }],
+                2 => [vec![Irq::Spurious], orig].concat(),
+                3 => [vec![Irq::Preamble, Irq::Cancel { chip_completes: true }]].concat(),
+                4 => [vec![Irq::HeaderError], orig].concat(),
+                5 => vec![Irq::CrcError { len: 11 }],
+                6 => vec![Irq::Timeout],
+                7 => [vec![Irq::Spurious, Irq::Spurious, Irq::Preamble], orig].concat(),
+                _ => vec![Irq::Preamble, Irq::Timeout],
+            };
+        }
+    }
+    // board options rotate with the scenario so every variant sees TCXO / DC-DC boards
+    let board = Board { tcxo: (si + j) % 3 == 1, dcdc: (si + j) % 2 == 1, rx_boost: si % 2 == 0, tx_boost: j % 2 == 0 };
+    Some(C14Case { chip, board, steps, avoid: vec![] })
+}
+
+fn gen_irqs(r: &mut Rng, op: &Op, cancel_pct: u64) -> Vec<Irq> {
+    if !op.waits() {
+        return vec![];
+    }
+    let mut v = Vec::new();
+    let n = r.weighted(&[45, 35, 15, 5]);
+    for _ in 0..n {
+        if r.chance(cancel_pct, 100) {
+            v.push(Irq::Cancel { chip_completes: r.chance(1, 2) });
+            break;
+        }
+        let len = *r.pick(&[0u8, 1, 12, 23, 64, 200, 255]);
+        v.push(match r.weighted(&[40, 15, 8, 8, 12, 12]) {
+            0 => Irq::Done { len, cad: r.chance(1, 2) },
+            1 => Irq::Timeout,
+            2 => Irq::CrcError { len },
+            3 => Irq::HeaderError,
+            4 => Irq::Preamble,
+            _ => Irq::Spurious,
+        });
+    }
+    v
+}
+
+fn gen_op(r: &mut Rng, guess: &mut u8) -> Op {
+    // guess: 0 standby, 1 sleep, 2 prepared-tx, 3 prepared-rx, 4 prepared-cad, 5 listen
+    let ch = r.below(7) as u8;
+    let dr = r.below(5) as u8;
+    let buf = *r.pick(&[0u16, 4, 64, 255, 256]);
+    let mode = match r.below(4) {
+        0 => RxM::Continuous,
+        1 => {
+            if r.chance(1, 2) {
+                DUTY
+            } else {
+                RxM::Duty { rx: 64, sleep: 640 }
+            }
+        }
+        _ => RxM::Single(*r.pick(&[0u16, 5, 20, 300])),
+    };
+    let natural = r.chance(65, 100);
+    let pick = if natural {
+        match *guess {
+            2 => 3,                                       // tx
+            3 => *r.pick(&[5usize, 6, 6, 7, 7, 8]),       // start_rx / complete_rx / rx / switch
+            4 => 11,                                      // cad
+            1 => *r.pick(&[0usize, 2, 4, 10, 12, 13, 14]), // out of sleep
+            _ => *r.pick(&[1usize, 1, 2, 2, 4, 4, 4, 9, 10, 12, 13, 14, 17]),
+        }
+    } else {
+        r.usize_below(18)
+    };
+    let op = match pick {
+        0 => Op::Init,
+        1 => Op::Sleep { warm: r.chance(1, 2) },
+        2 => Op::PrepTx { ch, dr, power: r.range(-9, 22) as i8, len: *r.pick(&[0u8, 1, 12, 51, 255]) },
+        3 => Op::Tx,
+        4 => Op::PrepRx { mode, ch, dr, implicit: r.chance(1, 5), len: *r.pick(&[12u8, 64, 255]) },
+        5 => Op::StartRx,
+        6 => Op::CompleteRx { buf },
+        7 => Op::Rx { buf },
+        8 => Op::SwitchChannel { ch },
+        9 => Op::Listen { ch },
+        10 => Op::PrepCad { ch, dr },
+        11 => Op::Cad,
+        12 => Op::SetSyncWord { word: *r.pick(&[0x3444u16, 0x1424, 0x2414, 0x1234]) },
+        13 => Op::LwTx { ch, dr, power: r.range(-4, 22) as i8, len: *r.pick(&[1u8, 13, 23, 64, 255]) },
+        14 => Op::LwSetupRx { ch, dr, continuous: r.chance(1, 3), ms: *r.pick(&[0u16, 10, 50]) },
+        15 => Op::LwRxSingle { buf: 256 },
+        16 => Op::LwRxContinuous { buf: 256 },
+        _ => Op::LwLowPower,
+    };
+    *guess = match op {
+        Op::Init | Op::Tx | Op::Cad | Op::SetSyncWord { .. } | Op::LwTx { .. } => 0,
+        Op::Sleep { .. } | Op::LwLowPower => 1,
+        Op::PrepTx { .. } => 2,
+        Op::PrepRx { .. } | Op::LwSetupRx { .. } => 3,
+        Op::PrepCad { .. } => 4,
+        Op::Listen { .. } => 5,
+        _ => *guess,
+    };
+    if matches!(op, Op::LwSetupRx { .. }) && r.chance(2, 3) {
+        // the adapter's receive calls only make sense after its setup_rx
+        *guess = 3;
+    }
+    op
+}
+
+fn random_case(seed: u64, run: u64) -> C14Case {
+    let mut r = Rng::new(run_seed(seed, "C14", run));
+    let chip = *r.pick(&ALL_CHIPS);
+    let board = Board { tcxo: r.chance(1, 3), dcdc: r.chance(1, 3), rx_boost: r.chance(1, 2), tx_boost: r.chance(1, 2) };
+    // swarm: which disturbances are enabled in this run, and how often
+    let fault_pct = *r.pick(&[0u64, 0, 10, 30]);
+    let cancel_pct = *r.pick(&[0u64, 0, 10, 25]);
+    let gaps = r.chance(1, 2);
+    let lw_only = r.chance(1, 5);
+    let n = r.range(2, 12) as usize;
+    let mut guess = 0u8;
+    let mut steps = Vec::with_capacity(n);
+    let mut lw_guess_rx = false;
+    while steps.len() < n {
+        let mut op = gen_op(&mut r, &mut guess);
+        if lw_only {
+            // a run that talks to the chip only through the adapter, the way the MAC does
+            op = match op {
+                Op::Init | Op::PrepTx { .. } | Op::Tx | Op::Cad | Op::PrepCad { .. } | Op::SetSyncWord { .. } | Op::Listen { .. } => Op::LwTx { ch: r.below(7) as u8, dr: r.below(5) as u8, power: r.range(0, 20) as i8, len: *r.pick(&[13u8, 23, 64]) },
+                Op::PrepRx { ch, dr, mode, .. } => Op::LwSetupRx { ch, dr, continuous: mode == RxM::Continuous, ms: 10 },
+                Op::StartRx | Op::CompleteRx { .. } | Op::Rx { .. } | Op::SwitchChannel { .. } => {
+                    if lw_guess_rx {
+                        Op::LwRxSingle { buf: 256 }
+                    } else {
+                        Op::LwSetupRx { ch: r.below(7) as u8, dr: r.below(5) as u8, continuous: false, ms: 10 }
+                    }
+                }
+                Op::Sleep { .. } => Op::LwLowPower,
+                o => o,
+            };
+            if let Op::LwSetupRx { continuous, .. } = op {
+                lw_guess_rx = true;
+                if continuous && r.chance(1, 2) {
+                    steps.push(Step::of(op));
+                    op = Op::LwRxContinuous { buf: 256 };
+                }
+            }
+        }
+        let irqs = gen_irqs(&mut r, &op, cancel_pct);
+        let fault = if r.chance(fault_pct, 100) {
+            let kind = *r.pick(&[FaultKind::Spi, FaultKind::Spi, FaultKind::Busy, FaultKind::Irq]);
+            let at = match kind {
+                FaultKind::Irq => r.below(3) as u16,
+                _ => {
+                    if r.chance(1, 2) {
+                        r.below(8) as u16
+                    } else {
+                        r.below(50) as u16
+                    }
+                }
+            };
+            Some(Fault { kind, at })
+        } else {
+            None
+        };
+        let gap_us = if gaps { *r.pick(&[0u32, 0, 0, 100, 5_000, 15_000, 25_000, 200_000]) } else { 0 };
+        steps.push(Step { op, gap_us, fault, irqs });
+    }
+    C14Case { chip, board, steps, avoid: vec![] }
+}
+
+fn run<RK: RadioKind>(rk: RK, world: WorldRef, case: &C14Case) -> Outcome {
+    let mut ex = Exec::new(rk, world, case);
+    for (i, s) in case.steps.iter().enumerate() {
+        if !ex.step(i, s) {
+            break;
+        }
+    }
+    if ex.violation.is_none() {
+        ex.recovery();
+    }
+    let (violation, stats, trace) = ex.finish();
+    Outcome { violation, stats, trace }
+}
+
+pub fn execute_case(case: &C14Case, want_trace: bool) -> Outcome {
+    let world = make_world(case.chip, case.board, want_trace);
+    with_radio_kind!(case.chip, case.board, world, |rk| run(rk, world.clone(), case))
+}
+
 impl Property for C14 {
     type Case = C14Case;
-    fn id(&self) -> &'static str { "C14" }
-    fn level(&self) -> &'static str { "fault_enumeration" }
-    fn rule(&self) -> String { String::new() }
-    fn assumptions(&self) -> Vec<String> { vec![] }
-    fn components(&self) -> serde_json::Value { crate::components_phy() }
-    fn budget(&self, _t: Tier) -> u64 { 0 }
-    fn generate(&self, _s: u64, _r: u64, _t: Tier, _a: &std::collections::BTreeSet<String>) -> C14Case { C14Case {} }
-    fn execute(&self, _c: &C14Case, _w: bool) -> Outcome { Outcome { violation: None, stats: RunStats::default(), trace: vec![] } }
+    fn id(&self) -> &'static str {
+        "C14"
+    }
+    fn level(&self) -> &'static str {
+        "fault_enumeration"
+    }
+    fn rule(&self) -> String {
+        format!(
+            "Runs 0..{} are systematic: {} canonical API scenarios (TX, RX single/continuous/duty-cycle, CAD, listen, sync word, init, warm/cold sleep in front of each, wrong-mode calls, duty-cycle sleep-phase timing, the LoRaWAN adapter's tx/setup_rx/rx_single/rx_continuous/low_power cycle) x 5 chip variants (SX1261, SX1262, STM32WL, SX1272, SX1276) x every step x [an SPI fault at each transaction position 0..56 | a BUSY fault at each wait position 0..56 | an IRQ-line fault at wait 0..2 | 9 IRQ-wait variants: cancel (chip keeps going / completes), spurious wake, preamble+cancel, header error, CRC error, timeout, repeated spurious]. The remaining runs are seeded random scripts of depth 2..12 over the full operation set with swarm-randomised fault/cancellation rates (a quarter of the runs undisturbed), random chip outcomes at every IRQ wait and simulated delays that land in or out of RxDutyCycle sleep phases; a fifth of them talk to the chip only through the LoRaWAN adapter. Every run ends with the bounded-recovery probe. Non-trivial = at least one TX/RX/CAD completed, a call was refused, or a chip-reported failure occurred; distinct = hash of (chip, op kinds, result kinds, events at waits, fault fired, cancelled).",
+            systematic_table().len() * 5,
+            scenarios().len()
+        )
+    }
+    fn assumptions(&self) -> Vec<String> {
+        vec![
+            "the chip is a stub (ChipModel126x / ChipModel127x) written from the datasheets; RF, packet timing and GFSK are not modelled; the script decides how and when an operation ends".into(),
+            "an SPI fault means: the transaction is not delivered to the chip and the HAL returns an error. A BUSY fault means wait_on_busy returns an error at once; an IRQ fault means await_irq returns an error. 'Delivered but reported as failed' SPI faults are not injected (the driver cannot know the chip state then)".into(),
+            "a future can only be pending at await_irq (IRQ line low) or at wait_on_busy of a sleeping SX126x; cancellation = dropping it there".into(),
+            "monitor (a) judges 'wrong mode' by a reference mode tracker stepped by the API history while the run is undisturbed, and by the driver's own radio_mode (hook) after a transport fault or cancellation".into(),
+            "monitor (c) demands 'programmed since the last reset / cold wake-up' for every item of DESIGN appendix B; the routing of the completion interrupt is only judged in undisturbed runs; listen() (RSSI measurement) is exempt from the packet-engine items".into(),
+            "monitor (d) applies to TransmitTimeout, ReceiveTimeout, PayloadSizeMismatch, OpError and the adapter's RxTimeout when no transport fault fired in that call; continuous RX is exempt".into(),
+            "after transport faults only monitors (a, by the driver's own mode), (b), (c) and the recovery probe are enforced; recovery tolerates one retry and a re-initialisation".into(),
+            "SX126x model: SPI activity during a duty-cycle RX phase keeps the chip awake for 200 us (the inherent status-read/sleep race is not reported)".into(),
+            "the LoRaWAN adapter is driven directly through PhyRxTx, not through a MAC".into(),
+        ]
+    }
+    fn components(&self) -> serde_json::Value {
+        crate::components_phy()
+    }
+    fn budget(&self, tier: Tier) -> u64 {
+        let sys = systematic_table().len() as u64 * 5;
+        match tier {
+            Tier::Quick => sys + 600_000,
+            Tier::Thorough => sys + 12_000_000,
+        }
+    }
+    fn generate(&self, seed: u64, run: u64, _tier: Tier, avoid: &BTreeSet<String>) -> C14Case {
+        let mut c = systematic(run).unwrap_or_else(|| random_case(seed, run));
+        c.avoid = avoid.iter().cloned().collect();
+        c
+    }
+    fn execute(&self, case: &C14Case, want_trace: bool) -> Outcome {
+        execute_case(case, want_trace)
+    }
+    fn self_test(&self) -> Result<(), String> {
+        self_test()
+    }
+    fn expected_probes(&self, _tier: Tier) -> Vec<&'static str> {
+        vec![
+            "fault.spi",
+            "fault.busy",
+            "fault.irq",
+            "fault.spurious-irq",
+            "fault.cancel-at-irq-wait",
+            "probe.duty-cycle-sleep-phase-hit",
+            "probe.duty-cycle-rx-phase-hit",
+            "probe.wake-up-from-sleep",
+            "probe.chip-config-lost-cold-sleep",
+            "probe.chip-cold-starts",
+            "probe.cold-sleep-entered",
+            "probe.wrong-mode-call",
+            "probe.refused",
+            "probe.chip-reported-failure",
+            "probe.tx-completed",
+            "probe.rx-completed",
+            "probe.cad-completed",
+            "probe.call-hit-by-transport-fault",
+            "probe.recovered-at-once",
+        ]
+    }
+}
+
+/// Harness self-test: every canonical scenario runs undisturbed on every chip; two executions agree.
+pub fn self_test() -> Result<(), String> {
+    install_quiet_panic_hook();
+    for chip in ALL_CHIPS {
+        let steps = vec![Step::of(Op::Sleep { warm: false }), Step::of(prep_tx()), Step::of(Op::Tx), Step::of(prep_rx(SINGLE)), Step::with(Op::Rx { buf: 64 }, vec![done(12)])];
+        let c = C14Case { chip, board: Board { tcxo: true, dcdc: true, rx_boost: false, tx_boost: false }, steps, avoid: vec![] };
+        let a = guarded_execute(&C14, &c, true)?;
+        let b = guarded_execute(&C14, &c, true)?;
+        if a.trace != b.trace || a.stats.shape != b.stats.shape {
+            return Err(format!("C14 self-test: two executions of one case differ on {chip:?}"));
+        }
+        if let Some(v) = a.violation {
+            return Err(format!("C14 self-test: the plain sleep/tx/rx scenario violates on {chip:?}: {} — {}", v.signature, v.message));
+        }
+        for p in ["probe.tx-completed", "probe.rx-completed", "probe.recovered-at-once"] {
+            if !a.stats.counters.contains_key(p) {
+                return Err(format!("C14 self-test: {p} not reached on {chip:?}: {:?}", a.stats.counters));
+            }
+        }
+    }
+    Ok(())
 }
